@@ -109,6 +109,14 @@ func (gc *primaryGC) run(interval, timeLimit time.Duration) {
 // of storage reclaimed.
 func (gc *primaryGC) gc(ctx context.Context, lowUsePercent int64, timeLimit time.Duration) (int64, error) {
 	gc.reclaimed = 0
+
+	// Flush the primary first, so that every location on the freelist is in a
+	// primary file. Otherwise freelist entries for records that are not yet
+	// written are skipped, and those records are never deleted.
+	if _, err := gc.primary.Flush(); err != nil {
+		return 0, fmt.Errorf("cannot flush primary: %w", err)
+	}
+
 	affectedSet, err := processFreeList(ctx, gc.freeList, gc.primary.basePath, gc.primary.maxFileSize)
 	if err != nil {
 		if err == context.DeadlineExceeded {
